@@ -87,4 +87,53 @@ func (*Segment).TrimLeftSpaceWidth
   loop 0 dec width
   loop 1 inv t.Start <= start && (t.Start < t.Stop ==> start < t.Stop) && start <= t.Stop
   loop 1 inv padding >= 0
+
+// ---- Segments: a growable list of segments ----
+macro sameSeg(a, b) = a.Start == b.Start && a.Stop == b.Stop && a.Padding == b.Padding && a.ForceNewline == b.ForceNewline
+
+func NewSegments
+  ensures fresh(result) && len(result.values) == 0
+  modifies nothing
+
+func (*Segments).Append
+  ensures len(s.values) == old(len(s.values)) + 1
+  ensures sameSeg(s.values[len(s.values)-1], t)
+  ensures forall k int :: 0 <= k && k < old(len(s.values)) ==> sameSeg(s.values[k], old(s.values[k]))
+  ensures fresh(s.values) || arrof(s.values) == old(arrof(s.values))
+  modifies s.values, contents(s.values)
+
+func (*Segments).Len
+  ensures result == len(s.values)
+  modifies nothing
+
+func (*Segments).At
+  requires 0 <= i && i < len(s.values)
+  ensures sameSeg(result, s.values[i])
+  modifies nothing
+
+func (*Segments).Set
+  requires 0 <= i && i < len(s.values)
+  ensures sameSeg(s.values[i], v)
+  ensures forall k int :: 0 <= k && k < len(s.values) && k != i ==> sameSeg(s.values[k], old(s.values[k]))
+  modifies contents(s.values)
+
+func (*Segments).SetSliced
+  requires 0 <= lo && lo <= hi && hi <= cap(s.values)
+  ensures len(s.values) == hi - lo && arrof(s.values) == old(arrof(s.values)) && offof(s.values) == old(offof(s.values)) + lo
+  modifies s.values
+
+func (*Segments).Sliced
+  requires 0 <= lo && lo <= hi && hi <= cap(s.values)
+  ensures len(result) == hi - lo && arrof(result) == arrof(s.values) && offof(result) == offof(s.values) + lo
+  modifies nothing
+
+func (*Segments).Clear
+  ensures len(s.values) == 0
+  modifies s.values
+
+func (*Segments).Value
+  requires forall k int :: 0 <= k && k < len(s.values) ==> validSeg(s.values[k], len(buffer))
+  ensures fresh(result)
+  modifies nothing
+  loop 0 inv fresh(result)
 @*/
